@@ -484,11 +484,35 @@ class _ControlShape(ast.NodeTransformer):
             return self.visit_If(ast.copy_location(ast.If(test=node.value.test, body=[a], orelse=[b]), node))
         return node
 
+    @staticmethod
+    def _negative(t):
+        return (isinstance(t, ast.UnaryOp) and isinstance(t.op, ast.Not)) or \
+            (isinstance(t, ast.Compare) and len(t.ops) == 1 and isinstance(t.ops[0], (ast.IsNot, ast.NotIn)))
+
+    @staticmethod
+    def _negated(t):
+        if isinstance(t, ast.UnaryOp) and isinstance(t.op, ast.Not):
+            return t.operand
+        if isinstance(t, ast.Compare) and len(t.ops) == 1 and isinstance(t.ops[0], (ast.Is, ast.IsNot, ast.In, ast.NotIn)):
+            swap = {ast.Is: ast.IsNot, ast.IsNot: ast.Is, ast.In: ast.NotIn, ast.NotIn: ast.In}
+            return ast.copy_location(ast.Compare(left=t.left, ops=[swap[type(t.ops[0])]()], comparators=t.comparators), t)
+        return ast.copy_location(ast.UnaryOp(op=ast.Not(), operand=t), t)
+
     def visit_If(self, node):
         self.generic_visit(node)
-        if isinstance(node.test, ast.UnaryOp) and isinstance(node.test.op, ast.Not) and node.orelse and not (len(node.orelse) == 1 and isinstance(node.orelse[0], ast.If)):
-            node.test = node.test.operand
-            node.body, node.orelse = node.orelse, node.body
+        exits = lambda b: bool(b) and isinstance(b[-1], (ast.Return, ast.Raise, ast.Continue, ast.Break))
+        if node.orelse and not (len(node.orelse) == 1 and isinstance(node.orelse[0], ast.If)):
+            # two-armed: the arm that leaves comes first (it is then hoisted below); when that does
+            # not decide, the test is written without negation (`not`, `is not`, `not in`)
+            if os.environ.get("HV_NO_POLARITY"):
+                flip = isinstance(node.test, ast.UnaryOp) and isinstance(node.test.op, ast.Not)
+            elif exits(node.orelse) != exits(node.body):
+                flip = exits(node.orelse)
+            else:
+                flip = self._negative(node.test)
+            if flip:
+                node.test = self._negated(node.test)
+                node.body, node.orelse = node.orelse, node.body
         if node.orelse and node.body and isinstance(node.body[-1], (ast.Return, ast.Raise, ast.Continue, ast.Break)) and not (len(node.orelse) == 1 and isinstance(node.orelse[0], ast.If)):
             tail = node.orelse
             node.orelse = []
@@ -635,6 +659,28 @@ def _comprehension_names(tree):
                 if isinstance(x, ast.Name):
                     out.add(x.id)
     return out
+
+
+def arm_for(block, match):
+    """the statements executed when the test recognised by `match(test)` holds, in a dispatch
+    written as an if/elif/else chain, as nested ifs in else arms, or with guard clauses
+    (`if not <test>: raise` followed by the arm); None when there is no such arm"""
+    exits = lambda b: bool(b) and isinstance(b[-1], (ast.Return, ast.Raise, ast.Continue, ast.Break))
+    for i, n in enumerate(block):
+        if not isinstance(n, ast.If):
+            continue
+        t = n.test
+        if match(t):
+            return list(n.body)
+        if isinstance(t, ast.UnaryOp) and isinstance(t.op, ast.Not) and match(t.operand):
+            if n.orelse:
+                return list(n.orelse)
+            if exits(n.body):
+                return list(block[i + 1:])
+        r = arm_for(n.orelse, match)
+        if r is not None:
+            return r
+    return None
 
 
 def as_less(node):
